@@ -62,6 +62,33 @@ def check(ctx):
            "Lexicographic sorts by Label::cmp(l.0, r.0) and LengthFirstLexicographic by Label::cmp_canonical(l.0, r.0), operands not swapped",
            where=f.span, detail={"found": {k: v for k, v in got.items()}}, sample={"comparators": {k: v for k, v in got.items()}})
 
+    # the two comparators must be the two CBOR orders (C16 R-1 / R-4 re-checked here: sortedness depends on them)
+    from rules import c16
+
+    class _Sub:
+        def __init__(self, ctx):
+            self.ctx = ctx
+            self.prog = ctx.prog
+            self.tier = ctx.tier
+
+        def ob(self, rule, key, ok, what, **kw):
+            if rule in ("R-1", "R-4"):
+                return self.ctx.ob("R-1", "comparator:" + key, ok, what, **kw)
+            return True
+
+        def cannot(self, rule, key, what, **kw):
+            return self.ctx.cannot("R-1", "comparator:" + key, what, **kw)
+
+        def count(self, *a):
+            pass
+
+        def floor(self, *a):
+            return True
+
+        def note(self, *a):
+            pass
+    c16.check(_Sub(ctx))
+
     # R-2 emission order
     e = prog.fn("<key::CoseKey as common::AsCborValue>::to_cbor_value")
     me = MapEncoder(prog, e)
